@@ -57,6 +57,14 @@ def gen(rng, tier):
         out.append(case("topologies", n, False, 1, 0))
     for n in range(0, rmax + 1):
         out.append(case("topologies", n, True, 1, 0))
+    # out-of-domain sizes: negative tip counts / depths (an error, never a panic); duplicated names for StarTreeFromName
+    for n in (-1, -5, -(2 ** 63)):
+        for gname in GENS + ["balanced", "topologies"]:
+            for rooted in (False, True):
+                out.append(case(gname, n, rooted, rng.randrange(1, 2**31), 8))
+        out.append(case("star", n, False, 1, 4))
+    for names in (["a", "a"], ["x", "y", "x", "z"], ["", ""], ["b", "b", "b"]):
+        out.append(case("starnames", len(names), False, 1, 4, names))
     # several goroutines generating at once (shared state between calls shows up as corrupted trees)
     for which, n in [("uniform", 30), ("uniform", 200), ("yule", 40), ("caterpillar", 40), ("balanced", 5), ("star", 30), ("topologies", 5)]:
         for rooted in (False, True):
